@@ -104,7 +104,12 @@ func TestC07(t *testing.T) {
 			fns = append(fns, eval.EvalContext(hx.NewCtx()))
 		}
 		var res qframe.QFrame
-		if perr := hx.Safely(func() { res = d.QF.Eval(dst, expr.Build(), fns...) }); perr != nil {
+		realExpr := expr.Build()
+		if rapid.IntRange(0, 3).Draw(t, "secondcall") == 0 {
+			// one Expression value used twice (first on a sibling frame with other temporaries in play): the second use counts
+			_ = hx.Safely(func() { _ = d.QF.Copy("const-temp-0", in.Cols[0].Name).Eval(dst, realExpr, fns...) })
+		}
+		if perr := hx.Safely(func() { res = d.QF.Eval(dst, realExpr, fns...) }); perr != nil {
 			t.Fatalf("Eval panicked: %v\n%s", perr, desc())
 		}
 		_, terr := expr.Type(in, custom)
